@@ -264,6 +264,10 @@ Definition sizeof_MacBinaryDecoder : N := 152.
 Definition macbinary_max_read : N := 4096.
 Definition macbinary_block_size : N := 0.
 Definition macbinary_extra_size : N := 152.
+Definition list_cols_l_count : N := 6.
+Definition list_cols_lv_count : N := 7.
+Definition list_cols_v_count : N := 8.
+Definition list_cols_vv_count : N := 9.
 
 Definition crc16_table : list N :=
   [0; 49345; 49537; 320; 49921; 960; 640; 49729; 50689; 1728; 1920; 51009;
@@ -410,3 +414,241 @@ Definition decoder_type_ids : list N :=
   [0; 1; 2; 0; 3; 4; 5; 6; 7; 8; 9; 0;
    10; 11].
 Definition decoder_type_ids_len : N := 14.
+Definition list_cols_l_widths : list N :=
+  [10; 11; 7; 6; 12; 20].
+Definition list_cols_l_widths_len : N := 6.
+Definition list_cols_l_handlers : list N :=
+  [0; 1; 3; 4; 6; 8].
+Definition list_cols_l_handlers_len : N := 6.
+Definition list_cols_l_footers : list N :=
+  [0; 1; 3; 4; 6; 98].
+Definition list_cols_l_footers_len : N := 6.
+Definition list_cols_l_ids : list N :=
+  [0; 1; 3; 4; 6; 8].
+Definition list_cols_l_ids_len : N := 6.
+Definition list_cols_l_name_0 : list N :=
+  [32; 80; 69; 82; 77; 83; 83; 78].
+Definition list_cols_l_name_0_len : N := 8.
+Definition list_cols_l_name_1 : list N :=
+  [32; 85; 73; 68; 32; 32; 71; 73; 68].
+Definition list_cols_l_name_1_len : N := 9.
+Definition list_cols_l_name_2 : list N :=
+  [32; 32; 32; 83; 73; 90; 69].
+Definition list_cols_l_name_2_len : N := 7.
+Definition list_cols_l_name_3 : list N :=
+  [32; 82; 65; 84; 73; 79].
+Definition list_cols_l_name_3_len : N := 6.
+Definition list_cols_l_name_4 : list N :=
+  [32; 32; 32; 32; 83; 84; 65; 77; 80].
+Definition list_cols_l_name_4_len : N := 9.
+Definition list_cols_l_name_5 : list N :=
+  [32; 32; 32; 32; 32; 32; 32; 78; 65; 77; 69].
+Definition list_cols_l_name_5_len : N := 11.
+Definition list_cols_lv_widths : list N :=
+  [0; 10; 11; 7; 6; 12; 3].
+Definition list_cols_lv_widths_len : N := 7.
+Definition list_cols_lv_handlers : list N :=
+  [9; 0; 1; 3; 4; 6; 10].
+Definition list_cols_lv_handlers_len : N := 7.
+Definition list_cols_lv_footers : list N :=
+  [98; 0; 1; 3; 4; 6; 98].
+Definition list_cols_lv_footers_len : N := 7.
+Definition list_cols_lv_ids : list N :=
+  [10; 0; 1; 3; 4; 6; 11].
+Definition list_cols_lv_ids_len : N := 7.
+Definition list_cols_lv_name_0 : list N :=
+  [].
+Definition list_cols_lv_name_0_len : N := 0.
+Definition list_cols_lv_name_1 : list N :=
+  [32; 80; 69; 82; 77; 83; 83; 78].
+Definition list_cols_lv_name_1_len : N := 8.
+Definition list_cols_lv_name_2 : list N :=
+  [32; 85; 73; 68; 32; 32; 71; 73; 68].
+Definition list_cols_lv_name_2_len : N := 9.
+Definition list_cols_lv_name_3 : list N :=
+  [32; 32; 32; 83; 73; 90; 69].
+Definition list_cols_lv_name_3_len : N := 7.
+Definition list_cols_lv_name_4 : list N :=
+  [32; 82; 65; 84; 73; 79].
+Definition list_cols_lv_name_4_len : N := 6.
+Definition list_cols_lv_name_5 : list N :=
+  [32; 32; 32; 32; 83; 84; 65; 77; 80].
+Definition list_cols_lv_name_5_len : N := 9.
+Definition list_cols_lv_name_6 : list N :=
+  [32; 76; 86].
+Definition list_cols_lv_name_6_len : N := 3.
+Definition list_cols_v_widths : list N :=
+  [10; 11; 7; 7; 6; 10; 12; 13].
+Definition list_cols_v_widths_len : N := 8.
+Definition list_cols_v_handlers : list N :=
+  [0; 1; 2; 3; 4; 5; 6; 8].
+Definition list_cols_v_handlers_len : N := 8.
+Definition list_cols_v_footers : list N :=
+  [0; 1; 2; 3; 4; 98; 6; 98].
+Definition list_cols_v_footers_len : N := 8.
+Definition list_cols_v_ids : list N :=
+  [0; 1; 2; 3; 4; 5; 6; 9].
+Definition list_cols_v_ids_len : N := 8.
+Definition list_cols_v_name_0 : list N :=
+  [32; 80; 69; 82; 77; 83; 83; 78].
+Definition list_cols_v_name_0_len : N := 8.
+Definition list_cols_v_name_1 : list N :=
+  [32; 85; 73; 68; 32; 32; 71; 73; 68].
+Definition list_cols_v_name_1_len : N := 9.
+Definition list_cols_v_name_2 : list N :=
+  [32; 80; 65; 67; 75; 69; 68].
+Definition list_cols_v_name_2_len : N := 7.
+Definition list_cols_v_name_3 : list N :=
+  [32; 32; 32; 83; 73; 90; 69].
+Definition list_cols_v_name_3_len : N := 7.
+Definition list_cols_v_name_4 : list N :=
+  [32; 82; 65; 84; 73; 79].
+Definition list_cols_v_name_4_len : N := 6.
+Definition list_cols_v_name_5 : list N :=
+  [77; 69; 84; 72; 79; 68; 32; 67; 82; 67].
+Definition list_cols_v_name_5_len : N := 10.
+Definition list_cols_v_name_6 : list N :=
+  [32; 32; 32; 32; 83; 84; 65; 77; 80].
+Definition list_cols_v_name_6_len : N := 9.
+Definition list_cols_v_name_7 : list N :=
+  [32; 32; 32; 32; 32; 32; 78; 65; 77; 69].
+Definition list_cols_v_name_7_len : N := 10.
+Definition list_cols_vv_widths : list N :=
+  [0; 10; 11; 7; 7; 6; 10; 19; 3].
+Definition list_cols_vv_widths_len : N := 9.
+Definition list_cols_vv_handlers : list N :=
+  [9; 0; 1; 2; 3; 4; 5; 7; 10].
+Definition list_cols_vv_handlers_len : N := 9.
+Definition list_cols_vv_footers : list N :=
+  [98; 0; 1; 2; 3; 4; 98; 7; 98].
+Definition list_cols_vv_footers_len : N := 9.
+Definition list_cols_vv_ids : list N :=
+  [10; 0; 1; 2; 3; 4; 5; 7; 11].
+Definition list_cols_vv_ids_len : N := 9.
+Definition list_cols_vv_name_0 : list N :=
+  [].
+Definition list_cols_vv_name_0_len : N := 0.
+Definition list_cols_vv_name_1 : list N :=
+  [32; 80; 69; 82; 77; 83; 83; 78].
+Definition list_cols_vv_name_1_len : N := 8.
+Definition list_cols_vv_name_2 : list N :=
+  [32; 85; 73; 68; 32; 32; 71; 73; 68].
+Definition list_cols_vv_name_2_len : N := 9.
+Definition list_cols_vv_name_3 : list N :=
+  [32; 80; 65; 67; 75; 69; 68].
+Definition list_cols_vv_name_3_len : N := 7.
+Definition list_cols_vv_name_4 : list N :=
+  [32; 32; 32; 83; 73; 90; 69].
+Definition list_cols_vv_name_4_len : N := 7.
+Definition list_cols_vv_name_5 : list N :=
+  [32; 82; 65; 84; 73; 79].
+Definition list_cols_vv_name_5_len : N := 6.
+Definition list_cols_vv_name_6 : list N :=
+  [77; 69; 84; 72; 79; 68; 32; 67; 82; 67].
+Definition list_cols_vv_name_6_len : N := 10.
+Definition list_cols_vv_name_7 : list N :=
+  [32; 32; 32; 32; 83; 84; 65; 77; 80].
+Definition list_cols_vv_name_7_len : N := 9.
+Definition list_cols_vv_name_8 : list N :=
+  [32; 76; 86].
+Definition list_cols_vv_name_8_len : N := 3.
+Definition list_os_name_default : list N :=
+  [91; 117; 110; 107; 110; 111; 119; 110; 93].
+Definition list_os_name_default_len : N := 9.
+Definition list_os_known : list N :=
+  [0; 32; 50; 51; 57; 65; 67; 70; 72; 74; 75; 77;
+   82; 84; 85; 87; 97; 109; 119].
+Definition list_os_known_len : N := 19.
+Definition list_os_name_0 : list N :=
+  [91; 103; 101; 110; 101; 114; 105; 99; 93].
+Definition list_os_name_0_len : N := 9.
+Definition list_os_name_32 : list N :=
+  [91; 76; 72; 65; 82; 75; 93].
+Definition list_os_name_32_len : N := 7.
+Definition list_os_name_50 : list N :=
+  [91; 79; 83; 47; 50; 93].
+Definition list_os_name_50_len : N := 6.
+Definition list_os_name_51 : list N :=
+  [91; 79; 83; 45; 51; 56; 54; 93].
+Definition list_os_name_51_len : N := 8.
+Definition list_os_name_57 : list N :=
+  [91; 79; 83; 45; 57; 93].
+Definition list_os_name_57_len : N := 6.
+Definition list_os_name_65 : list N :=
+  [91; 65; 109; 105; 103; 97; 93].
+Definition list_os_name_65_len : N := 7.
+Definition list_os_name_67 : list N :=
+  [91; 67; 80; 47; 77; 93].
+Definition list_os_name_67_len : N := 6.
+Definition list_os_name_70 : list N :=
+  [91; 70; 76; 69; 88; 93].
+Definition list_os_name_70_len : N := 6.
+Definition list_os_name_72 : list N :=
+  [91; 72; 117; 109; 97; 110; 54; 56; 75; 93].
+Definition list_os_name_72_len : N := 10.
+Definition list_os_name_74 : list N :=
+  [91; 74; 97; 118; 97; 93].
+Definition list_os_name_74_len : N := 6.
+Definition list_os_name_75 : list N :=
+  [91; 79; 83; 45; 57; 47; 54; 56; 75; 93].
+Definition list_os_name_75_len : N := 10.
+Definition list_os_name_77 : list N :=
+  [91; 77; 83; 45; 68; 79; 83; 93].
+Definition list_os_name_77_len : N := 8.
+Definition list_os_name_82 : list N :=
+  [91; 82; 117; 110; 115; 101; 114; 93].
+Definition list_os_name_82_len : N := 8.
+Definition list_os_name_84 : list N :=
+  [91; 84; 111; 119; 110; 115; 79; 83; 93].
+Definition list_os_name_84_len : N := 9.
+Definition list_os_name_85 : list N :=
+  [91; 85; 110; 105; 120; 93].
+Definition list_os_name_85_len : N := 6.
+Definition list_os_name_87 : list N :=
+  [91; 87; 105; 110; 78; 84; 93].
+Definition list_os_name_87_len : N := 7.
+Definition list_os_name_97 : list N :=
+  [91; 65; 116; 97; 114; 105; 93].
+Definition list_os_name_97_len : N := 7.
+Definition list_os_name_109 : list N :=
+  [91; 77; 97; 99; 32; 79; 83; 93].
+Definition list_os_name_109_len : N := 8.
+Definition list_os_name_119 : list N :=
+  [91; 87; 105; 110; 57; 120; 93].
+Definition list_os_name_119_len : N := 7.
+Definition list_month_0 : list N :=
+  [74; 97; 110].
+Definition list_month_0_len : N := 3.
+Definition list_month_1 : list N :=
+  [70; 101; 98].
+Definition list_month_1_len : N := 3.
+Definition list_month_2 : list N :=
+  [77; 97; 114].
+Definition list_month_2_len : N := 3.
+Definition list_month_3 : list N :=
+  [65; 112; 114].
+Definition list_month_3_len : N := 3.
+Definition list_month_4 : list N :=
+  [77; 97; 121].
+Definition list_month_4_len : N := 3.
+Definition list_month_5 : list N :=
+  [74; 117; 110].
+Definition list_month_5_len : N := 3.
+Definition list_month_6 : list N :=
+  [74; 117; 108].
+Definition list_month_6_len : N := 3.
+Definition list_month_7 : list N :=
+  [65; 117; 103].
+Definition list_month_7_len : N := 3.
+Definition list_month_8 : list N :=
+  [83; 101; 112].
+Definition list_month_8_len : N := 3.
+Definition list_month_9 : list N :=
+  [79; 99; 116].
+Definition list_month_9_len : N := 3.
+Definition list_month_10 : list N :=
+  [78; 111; 118].
+Definition list_month_10_len : N := 3.
+Definition list_month_11 : list N :=
+  [68; 101; 99].
+Definition list_month_11_len : N := 3.
